@@ -45,6 +45,35 @@ CONSTANTS = {
         # ---- parquet BitReader::get_vlq_int
         ("MAX_VLQ_BYTE_LEN", _B, r"pub const MAX_VLQ_BYTE_LEN: usize = (\d+);", "int"),
         ("BITREADER_VLQ_STEP", _B, r"pub fn get_vlq_int\(&mut self\).*?shift \+= (7);\s*assert!\(\s*shift <= MAX_VLQ_BYTE_LEN \* 7,", "int"),
+        # ---- SHAPE items: the guard / operand structure the theorems rely on.  An `intlist` item with an
+        # empty group only records that the expression still has this shape (LOST otherwise).
+        ("SHAPE_BUFFER_SLICE_ASSERT", "arrow-buffer/src/buffer/immutable.rs",
+         r"pub fn slice_with_length\(&self, offset: usize, length: usize\) -> Self \{\s*assert!\(\s*offset\.saturating_add\(length\) <= self\.length,()", "intlist"),
+        ("SHAPE_IPC_READ_BUFFER", "arrow-ipc/src/reader.rs",
+         r"let start_offset = buf\.offset\(\) as usize;\s*let buf_data = a_data\.slice_with_length\(start_offset, buf\.length\(\) as usize\);()", "intlist"),
+        ("SHAPE_AVRO_BLOCK_RESERVE", "arrow-avro/src/reader/block.rs",
+         r"self\.in_progress\s*\.data\s*\.reserve\(self\.bytes_remaining\.min\(buf\.len\(\)\)\);()", "intlist"),
+        ("SHAPE_AVRO_BLOCK_COUNT_SIGN", "arrow-avro/src/reader/block.rs",
+         r"self\.in_progress\.count = c\.try_into\(\)\.map_err\(()", "intlist"),
+        ("SHAPE_AVRO_BLOCK_SIZE_SIGN", "arrow-avro/src/reader/block.rs",
+         r"self\.bytes_remaining = c\.try_into\(\)\.map_err\(()", "intlist"),
+        ("SHAPE_AVRO_GET_BYTES_BOUND", "arrow-avro/src/reader/cursor.rs",
+         r"if self\.buf\.len\(\) < len \{\s*return Err\(AvroError::EOF\(\"Unexpected EOF reading bytes\"()", "intlist"),
+        ("SHAPE_AVRO_FAST_DISPATCH", _V, r"if first < (0x80) \{\s*return Some\(\(first as u64, 1\)\);", "int"),
+        ("SHAPE_AVRO_STREAM_ERR_BEFORE_CONSUME", _V,
+         r"\"Malformed Avro varint: too many continuation bytes\"\.to_string\(\),\s*\)\);\s*\}\s*\*buf = &buf\[(1)\.\.\];", "int"),
+        ("SHAPE_TRY_PUSH_CHAR_BOUNDARY", "parquet/src/arrow/buffer/offset_buffer.rs", r"if \(b as i8\) < -(0x40) \{", "int"),
+        ("SHAPE_THRIFT_SKIP_BOOL_NO_DATA", _T, r"FieldType::BooleanFalse \| FieldType::BooleanTrue => Ok\(\(\)\),()", "intlist"),
+        ("SHAPE_THRIFT_DELTA_CHECKED_ADD", _T, r"last_field_id\.checked_add\(field_delta as i16\)\.ok_or\(()", "intlist"),
+        ("SHAPE_THRIFT_LIST_SIZE_I32", _T, r"i32::try_from\(self\.read_vlq\(\)\?\)\?()\s*\};\s*Ok\(ListIdentifier \{", "intlist"),
+        ("SHAPE_THRIFT_LIST_EMPTY_HEADER", _T, r"if header == (0) \{\s*return Ok\(ListIdentifier \{\s*element_type: ElementType::Byte,\s*size: 0,", "int"),
+        ("SHAPE_THRIFT_STOP_IGNORES_DELTA", _T, r"if field_type & 0xf == (0) \{\s*return Ok\(FieldIdentifier \{\s*field_type: FieldType::Stop,", "int"),
+        ("SHAPE_ZIGZAG_THRIFT", _T, r"Ok\(\(val >> (1)\) as i64 \^ -\(\(val & 1\) as i64\)\)", "int"),
+        ("SHAPE_ZIGZAG_AVRO_CURSOR", "arrow-avro/src/reader/cursor.rs", r"let val = self\.read_vlq\(\)\?;\s*Ok\(\(val >> (1)\) as i64 \^ -\(\(val & 1\) as i64\)\)", "int"),
+        ("SHAPE_ZIGZAG_AVRO_STREAM", _V, r"return Ok\(Some\(\(val >> (1)\) as i64 \^ -\(\(val & 1\) as i64\)\)\);", "int"),
+        ("SHAPE_ZIGZAG_BITREADER", _B, r"\(u >> (1)\) as i64 \^ -\(\(u & 1\) as i64\)", "int"),
+        ("SHAPE_DELTA_BLOCK_MULTIPLE", "parquet/src/encodings/decoding.rs", r"if !self\.block_size\.is_multiple_of\((128)\) \{", "int"),
+        ("SHAPE_DELTA_MINIBLOCK_MULTIPLE", "parquet/src/encodings/decoding.rs", r"if !self\.values_per_mini_block\.is_multiple_of\((32)\) \{", "int"),
         # ---- IPC
         ("IPC_MAX_PREALLOC_BYTES", "arrow-ipc/src/reader.rs", r"const MAX_PREALLOC_BYTES: usize = ([^;]+);", "int"),
     ],
